@@ -67,3 +67,9 @@ chk('C12', 'exploration',
 chk('C13', 'exploration',
     'Every leaf-set-distinct mesh state of the BFS graphs on the closed curves, uniform refinements and deep roots (aspect <= 32): lambda_min of the diagonally scaled symmetric part of bilform_matrix > 0.01, every 4x4 child block and its three scalings positive, both switch values.',
     'Mesh sizes bounded by the listed depths (largest mesh in the evidence).', 'exhaustive enumeration of BFS mesh states with an eigenvalue oracle', 'DESIGN.md 4/C13', 'E1-mesh-explorer')
+ENGINES += [{'name': 'E1q-quadtree-explorer', 'path': 'mc/quadmc.py', 'serves_properties': ['C16'],
+             'kind_free_text': 'explicit-state BFS over InitialMesh.refine histories on the real objects with a reference quadtree (mc/refquad.py) in lock-step'}]
+chk('C16', 'model_checking',
+    'All histories of InitialMesh.refine up to depth 5 (squares) / 4 (L-shape) quick, 6 / 5 thorough, on the real objects in lock-step with a reference quadtree (tiling in exact arithmetic, 2:1 balance, unique vertices, bookkeeping, gmsh); uniform_refine in three iteration orders as a leaf transition; the complete set of boundary-targeting calls: every boundary piece x every dyadic segment l <= 6 (quick) / 10 (thorough) x both orientations x tuple/list/2x1-array/production-gamma realisations, on fresh meshes and on every shallow BFS state.',
+    'Trusted: mc/refquad.py; bisection = IEEE double midpoint; on the pi square given end points within 1e-12*pi of the model points. Observation (not claimed): uniform_refine raises on non-uniform meshes in native set order while leaving a valid mesh.',
+    'explicit-state model checking of the implementation (BFS over refinement histories + exhaustive enumeration of targeting calls, lock-step reference model)', 'DESIGN.md 4/C16', 'E1q-quadtree-explorer')
